@@ -6,4 +6,4 @@ echo "== demo with change"; /venv/bin/python demo_seed.py >/tmp/seed_demo_on.txt
 git stash -q -- frappy; echo "== demo without change"; /venv/bin/python demo_seed.py >/tmp/seed_demo_off.txt 2>&1; echo "exit $?"; tail -2 /tmp/seed_demo_off.txt; git stash pop -q
 echo "== tests with change"; /venv/bin/python -m pytest -q -p no:cacheprovider --timeout=900 --continue-on-collection-errors 2>&1 | tail -1
 cd /verif
-echo "== check quick"; FRAPPY_REPO=$WT timeout 1500 ./check $ID --tier quick 2>&1 | grep -v "^/\\\\\|^  \|^State\|^$" | cut -c1-220 | tail -8
+echo "== check quick"; VERIF_EVIDENCE_DIR=/tmp/seed_evidence FRAPPY_REPO=$WT timeout 1500 ./check $ID --tier quick 2>&1 | grep -v "^/\\\\\|^  \|^State\|^$" | cut -c1-220 | tail -8
